@@ -19,6 +19,11 @@ Obs(v, b) == [vfn |-> v, bk |-> b]
 Create(c) == /\ st[c] = "idle" /\ st' = [st EXCEPT ![c] = "created"]
              /\ ev' = [e |-> "create", c |-> c, res |-> "created", ns |-> 0] @@ Obs(vfn, bkcalls)
              /\ UNCHANGED <<cfg, gout, gid, ngate, vfn, bkcalls>>
+\* the property is silent on whether the inner call starts in Service::call or at the first poll
+CreateEager(c) == /\ st[c] = "idle" /\ st' = [st EXCEPT ![c] = "running"] /\ gout' = [gout EXCEPT ![c] = "pending"]
+                  /\ gid' = [gid EXCEPT ![c] = ngate + 1] /\ ngate' = ngate + 1
+                  /\ ev' = [e |-> "create", c |-> c, res |-> "created", ns |-> 1, si |-> ngate + 1, sc |-> c] @@ Obs(vfn, bkcalls)
+                  /\ UNCHANGED <<cfg, vfn, bkcalls>>
 FirstPoll(c) == /\ st[c] = "created" /\ st' = [st EXCEPT ![c] = "running"] /\ gout' = [gout EXCEPT ![c] = "pending"]
                 /\ gid' = [gid EXCEPT ![c] = ngate + 1] /\ ngate' = ngate + 1
                 /\ ev' = [e |-> "poll", c |-> c, res |-> "pending", ns |-> 1, si |-> ngate + 1, sc |-> c] @@ Obs(vfn, bkcalls)
@@ -46,7 +51,7 @@ PollOutcome(c) ==
      IN /\ vfn' = (IF useVfn THEN vfn + 1 ELSE vfn) /\ bkcalls' = (IF useBk THEN bkcalls + 1 ELSE bkcalls)
         /\ ev' = r @@ [e |-> "poll", c |-> c, ns |-> 0, nd |-> 1] @@ Obs(IF useVfn THEN vfn + 1 ELSE vfn, IF useBk THEN bkcalls + 1 ELSE bkcalls)
   /\ UNCHANGED <<cfg, gout, gid, ngate>>
-PollStutter(c) == /\ st[c] = "running" /\ gout[c] = "pending"
+PollStutter(c) == /\ ((st[c] = "running" /\ gout[c] = "pending") \/ st[c] = "created")
                   /\ ev' = [e |-> "poll", c |-> c, res |-> "pending", ns |-> 0, nd |-> 0] @@ Obs(vfn, bkcalls)
                   /\ UNCHANGED <<cfg, st, gout, gid, ngate, vfn, bkcalls>>
 Drop(c) == /\ st[c] \in {"created", "running"} /\ st' = [st EXCEPT ![c] = "done"]
